@@ -202,6 +202,30 @@ pub fn exec_call(text: &str, cs: &CallSpec, n: usize) -> CallRes {
         }
         "count_a" => adf.stable_count_optimisation_heu_a().collect(),
         "count_b" => adf.stable_count_optimisation_heu_b().collect(),
+        "ng_chan_b" | "twoval_chan_b" => {
+            // a bounded (rendezvous / capacity 1) channel with a consumer that starts late and is slow: nothing may be lost,
+            // and the consumer's loop must end because the sender is dropped
+            let heu = heuristic_by_name(&cs.h);
+            let cap = (cs.seed % 2) as usize;
+            let (s, r) = crossbeam_channel::bounded::<Vec<Term>>(cap);
+            let consumer = std::thread::spawn(move || {
+                std::thread::sleep(std::time::Duration::from_millis(15));
+                let mut got = Vec::new();
+                for m in r.iter() {
+                    got.push(m);
+                    std::thread::sleep(std::time::Duration::from_millis(2));
+                }
+                got
+            });
+            if cs.c == "ng_chan_b" {
+                adf.stable_nogood_channel(heu, s);
+            } else {
+                adf.two_val_nogood_channel(heu, s);
+            }
+            let got = consumer.join().unwrap_or_default();
+            ch = "disconnected";
+            got
+        }
         "ng" | "ng_chan" | "twoval_chan" => {
             let counter = Arc::new(AtomicUsize::new(0));
             let budget = 4 * 3usize.pow(n as u32) + 16;
@@ -297,6 +321,10 @@ pub fn call_specs(props: &[String], rng: &mut StdRng, n: usize, rich: bool) -> V
         let len = rng.gen_range(1..=(2 * n + 2));
         let script: Vec<(usize, bool)> = (0..len).map(|_| (rng.gen_range(0..n.max(1)), rng.gen_bool(0.5))).collect();
         v.push(CallSpec { c: "twoval_chan", b: Backend::Native, h: "Custom".into(), seed: 0, script });
+        if rng.gen_range(0..6) == 0 {
+            v.push(CallSpec { c: "twoval_chan_b", b: Backend::Native, h: heus[rng.gen_range(0..3)].into(), seed: rng.gen(), script: vec![] });
+            v.push(CallSpec { c: "ng_chan_b", b: Backend::Native, h: heus[rng.gen_range(0..3)].into(), seed: rng.gen(), script: vec![] });
+        }
     }
     v
 }
